@@ -235,7 +235,16 @@ impl<'a> Gen<'a> {
                 }
                 Item::Map(es)
             }
-            2 => Item::Tag(*self.rng.pick(&[1u64, 32, 37, 100, 40001, 40012, 65536, 0xffff_ffff_ff]), Box::new(self.item(depth - 1))),
+            2 => Item::Tag(*self.rng.pick(&[1u64, 24, 32, 37, 100, 200, 201, 40000, 40001, 40002, 40003, 40012, 65536, 0xffff_ffff_ff]), Box::new(self.item(depth - 1))),
+            6 => {
+                // a leaf that embeds an envelope's own tagged CBOR (and sometimes something envelope-like but malformed)
+                match self.rng.below(4) {
+                    0 => Item::Tag(200, Box::new(Item::Tag(201, Box::new(self.scalar_item())))),
+                    1 => Item::Tag(200, Box::new(Item::Array(vec![Item::Tag(201, Box::new(self.scalar_item()))]))),
+                    2 => Item::Tag(200, Box::new(Item::Array(vec![Item::Tag(201, Box::new(self.scalar_item())), Item::Map(vec![(Item::UInt(4), Item::Tag(201, Box::new(self.scalar_item())))])]))),
+                    _ => Item::Tag(200, Box::new(Item::Bytes(self.rng.bytes(32)))),
+                }
+            }
             3 if self.cfg.big => {
                 // compressible text 1-4 KB
                 let n = self.rng.range(40, 160);
